@@ -219,6 +219,28 @@ def hs_hello_retry_request(rng):
     )
 
 
+def handshake_twins(rng):
+    """Two to four consecutive handshake messages of exactly the same total length and different content (the same
+    or different message types), as a peer sending several certificates / key exchange blobs of one size does.
+    bytes of each message, composed by the library."""
+    from cryptoparser.tls.subprotocol import (
+        TlsHandshakeCertificate, TlsCertificates, TlsCertificate, TlsHandshakeServerKeyExchange,
+        TlsHandshakeCertificateStatus)
+    from cryptoparser.tls.extension import TlsCertificateStatusType
+    payload = rng.choice((24, 100, 506, 512, 600, 1000, 2048, 5000))
+    out = []
+    for _ in range(rng.choice((2, 2, 3, 4))):
+        kind = rng.randrange(3)
+        if kind == 0:
+            message = TlsHandshakeServerKeyExchange(rbytes(rng, payload))
+        elif kind == 1:
+            message = TlsHandshakeCertificate(TlsCertificates([TlsCertificate(rbytes(rng, payload - 6))]))
+        else:
+            message = TlsHandshakeCertificateStatus(TlsCertificateStatusType.OCSP, bytearray(rbytes(rng, payload - 4)))
+        out.append(bytes(message.compose()))
+    return out
+
+
 HS_FACTORIES = (
     hs_client_hello, hs_client_hello, hs_server_hello, hs_server_hello, hs_certificate, hs_server_key_exchange,
     hs_certificate_status, hs_server_hello_done, hs_certificate_request, hs_hello_retry_request,
